@@ -26,7 +26,7 @@ RULE = ("exhaustive: every valid parameter layout of <=4 parameters over {positi
         "(none, None, int, 'str'), as functions and as methods; distinct by construction, non-trivial when the layout has a "
         "separator, a default or an annotation. random: 1-9 parameters with generated default/annotation expressions "
         "(incl. string annotations, nested quoted annotations, Literal), async/method/classmethod variants and @overload stacks; "
-        "distinct by hash of the definition text.")
+        "distinct by hash of the definition text. plus every depth-two expression of C15's reduced enumeration as positional and keyword-only default and, where legal, as annotation.")
 ASSUMPTIONS = [
     "expression shapes that are open C15 findings are not used as defaults/annotations (counted as excluded): C14 measures layout",
     "string annotations are generated syntactically valid (invalid ones are C01/C16 business)",
